@@ -122,6 +122,17 @@ def streams(rng, tier):
              "single": rng.random() < 0.5}
         c["lon"], c["ron"] = [["n", "k0"]], [["n", c["R"][0][0]]]
         strict.append(c)
+        # a LONG right side (9 .. 14 rows) of which several rows, anywhere, have no partner: a full join appends them in the
+        # order they have in the right table
+        nr = rng.randint(9, 14)
+        rk2 = rng.sample(range(100, 100 + 3 * nr), nr)
+        keep = sorted(rng.sample(range(nr), rng.randint(2, nr - 2)))                  # these right rows have partners
+        lk2 = [rk2[i] for i in rng.sample(keep, len(keep))] + ([7] if rng.random() < 0.5 else [])
+        c2 = {"how": "full", "expect": rng.choice([None, "many_to_many", "one_to_one", "many_to_one"]),
+              "L": [["k0", [["i", x] for x in lk2]], ["a0", [["s", f"L{j}"] for j in range(len(lk2))]]],
+              "R": [["r0", [["i", x] for x in rk2]], ["b0", [["s", f"R{j}"] for j in range(nr)]]],
+              "lon": [["n", "k0"]], "ron": [["n", "r0"]], "single": rng.random() < 0.5}
+        strict.append(c2)
     out.append(("strict", strict))
     out.append(("small", with_mirror([J.gen_pair(rng, maxrows=3, how=rng.choice(["left", "full"])) for _ in range(nsmall)])))
     un = []
